@@ -650,6 +650,11 @@ def h_scribble(w, st, rec):
                     e.params += 1.0
                     done = True
                     w.probes["scribble.in:ParamNoise"] += 1
+                elif how == "param" and hasattr(e, "dist") and hasattr(e.dist, "mean"):
+                    e.dist.mean += 1.0             # the caller changes the distribution its callable holds
+                    e.dist.covariance *= 2.0
+                    done = True
+                    w.probes["scribble.in:model_object_held_by_a_callable"] += 1
                 else:
                     b[k] = w.fn(["lin", [9.0], 9.0]) if tgt.endswith(".assign") else w.fn(["noise.uniform", 5, 6])
                     done = True
@@ -1039,8 +1044,9 @@ def gen_model(g, gs, cfg, ops, c, invalid=False):
         rec["A"] = arg(cast(A, g.choice(["<f8", "<f8", "<i8", "<i8", "|b1"]), g), must_nd=True, role="graph")
         rec["assign"] = [G.rand_assign_spec(g, allow_param=True) for _ in range(p)]
         rec["noise"] = [G.rand_noise_spec(g) if g.random() < 0.7 else
-                        (["paramnoise", G.r2(g, -1, 1), G.r2(g, 0.2, 1.5)] if g.random() < 0.6 else
-                         ["replay", [G.r2(g, -2, 2) for _ in range(g.randint(3, 7))]])
+                        (["paramnoise", G.r2(g, -1, 1), G.r2(g, 0.2, 1.5)] if g.random() < 0.5 else
+                         ["replay", [G.r2(g, -2, 2) for _ in range(g.randint(3, 7))]] if g.random() < 0.5 else
+                         ["ndnoise", G.r2(g, -1, 1), G.r2(g, 0.2, 1.5)])
                         for _ in range(p)]
     if invalid:
         rec["invalid"] = True
@@ -1490,7 +1496,7 @@ REQUIRED_PROBES = ["iv.do.non_source", "iv.shift.non_source", "iv.noise.non_sour
                    "op_after_failed_op_same_model", "natural_LinAlgError", "history.first_vs_later",
                    "history.aged_vs_twin", "sweep.fault_positions", "sweep.utils", "obs_law.checked", "obs_law.checked:anm", "obs_law.checked:nd", "buf.view", "gc.model_dropped",
                    "gc.model_id_reused", "two_models_from_one_caller_array", "model_from_generator_output", "buf.lower_rank",
-                   "buf.readonly_view", "buf.column_vector", "call.by_keyword", "scribble.in:bound_method_owner",
+                   "buf.readonly_view", "buf.column_vector", "call.by_keyword", "scribble.in:bound_method_owner", "scribble.in:model_object_held_by_a_callable",
                    "utils.unseeded_call",
                    "nd.check_valid"]
 
